@@ -127,6 +127,14 @@ class ModuleImports:
         return result
 
     def get_changed_source(self):
+        source = self._get_changed_source()
+        # A byte order mark belongs to the file, not to the statement on its
+        # first line: it stays in front when that statement moves or goes.
+        if self.pymodule.source_code.startswith(_BOM) and not source.startswith(_BOM):
+            source = _BOM + source
+        return source
+
+    def _get_changed_source(self):
         if not self.project.prefs.get("pull_imports_to_top") and not self.sorted:
             return "".join(self._rewrite_imports(self.imports))
 
@@ -403,6 +411,9 @@ def _split_lines(source):
     return result
 
 
+_BOM = "\ufeff"
+
+
 def _count_blank_lines(get_line, start, end, step=1):
     count = 0
     for idx in range(start, end, step):
@@ -582,7 +593,7 @@ class _GlobalImportFinder:
 
     def _get_text(self, start_line, end_line):
         result = [self.lines.get_line(index) for index in range(start_line, end_line)]
-        return "\n".join(result)
+        return "\n".join(result).lstrip(_BOM)
 
     def visit_from(self, node, end_line):
         level = 0
